@@ -75,7 +75,7 @@ def run(facts, tier):
     ]
     roots = entries.c06(facts)
     ok, why = xptable.arity_guard_ok(facts)
-    ctx = {"arity": {e["fid"]: e["min"] for e in xptable.entries(facts)} if ok else {}}
+    ctx = {"arity": xptable.helper_arity(facts, {e["fid"]: e["min"] for e in xptable.entries(facts)}) if ok else {}}
     res.extra["arity_guard"] = why
     reach0, _ = facts.reachable(roots)
     reasons, verdicts = reasons_e1.resolve(facts, reach0)
